@@ -369,6 +369,7 @@ def c08(tier):
                 us.append(U(f"pair:{integ}:p{phys}:t{a}-{b}-{c}", "hint", "pair", dict(integ=integ, phys=phys, names=a, prefixes=b, datatypes=c, maxname=mx), timeout=300))
     for phys in (1, 2):
         us.append(U(f"pair:rdflib:p{phys}:stream-only", "hint", "pair", dict(integ="rdflib", phys=phys, names=8, prefixes=8, datatypes=8, maxname=4, rentry="graph_serialize_stream_only"), timeout=300))
+    us.append(U("hint-seekable", "iosched", "seekable", dict(integ="generic", phys=1, K=3, fs=1), timeout=300))
     # detection must also be right when the header arrives in pieces (non-seekable source, short first reads)
     for delim, fs in ((True, 1), (False, 250)):
         base = dict(integ="generic", phys=1, K=3, fs=fs, delimited=delim)
